@@ -224,6 +224,26 @@ def next_with_class_values():
     return o
 
 
+def factory_next():
+    """methods produced by ONE def (a factory) that delegate with o.next: each keeps its own identity in the walk."""
+    o = Ovld(name="fac")
+
+    def make(tp, label):
+        def method(x):
+            return [label] + o.next(x)
+
+        method.__annotations__ = {"x": tp}
+        return method
+
+    def last(x: object):
+        return ["object"]
+
+    o.register(last)
+    for tp, label in ((int, "int"), (bool, "bool")):
+        o.register(make(tp, label))
+    return o
+
+
 def priority_chain():
     o = Ovld(name="prio")
 
@@ -297,6 +317,7 @@ CASES = [
     ("next_equivalent", lambda: with_next()(C()), ["C", "B", "A"]),
     ("next_with_class_valued_arguments", lambda: next_with_class_values()(bool), ["type[int]", "type[object]", "object"]),
     ("next_with_generic_alias_arguments", lambda: next_with_class_values()(list[int]), ["type[object]", "object"]),
+    ("factory_made_methods_delegating_with_next", lambda: factory_next()(True), ["bool", "int", "object"]),
     ("priority_then_specificity", lambda: priority_chain()(B()), ["hi", "B", "obj"]),
     ("nullary", lambda: nullary()(), "NOMETHOD"),
 ]
